@@ -48,8 +48,19 @@ class C16(Prop):
                 if min(sum(V[r][j - 1] for r in range(n)) for j in ([ch] if isinstance(ch, int) else ch)) <= 0: continue
                 yield dict(entry="distortion", family="helper", rule="DIST", V=V, choice=ch)
                 continue
+            ec = "lambda"
+            if i % 4 == 0:
+                # approval-like integer utilities stored with an integer dtype, a widely liked second choice, many alternatives
+                if rule == "KARV": n = rng.randint(3, 8); m = rng.randint(9, 12); k = rng.randint(1, 2)
+                P = [rng.sample(range(1, m + 1), m) for _ in range(n)]
+                common = rng.randrange(m)
+                for row in P:
+                    j = row.index(2); row[j], row[common] = row[common], row[j]
+                    if row[common] != 2:      # common was the favourite: swap back so that it is ranked second
+                        j = row.index(2); row[j], row[common] = row[common], row[j]
+                V = [[float(1 if r <= 2 else 0) for r in row] for row in P]; kind = "approval_int"; ec = "profile_int"
             yield dict(entry={"KARV": "KARV.scf", "TSF": "LambdaTSF.scf"}[rule], family=rule.lower() + "_" + kind, rule=rule, P=P, V=V, k=k,
-                       tb=["accept", "first", "random"][i % 3], zi=True, want_out=True, seed=i)
+                       tb=["accept", "first", "random"][i % 3], zi=True, want_out=True, seed=i, eclass=ec, ezi=True)
 
     def run(self, case):
         if case["rule"] == "DIST":
